@@ -1,5 +1,7 @@
 // verifgen — translators from /repo's Go source to coq/Gen/*.v (run on every check; see DESIGN §2.3b).
-//   verifgen <name> -repo /repo -coq /verif/coq
+//
+//	verifgen <name> -repo /repo -coq /verif/coq
+//
 // Each translator lives in its own file and registers itself in init(). A translator that no longer
 // recognises the code exits non-zero: the tie is broken and the check reports it.
 package main
